@@ -217,18 +217,36 @@ theorem loadBytes_printToc (t : Toc) (hv : TocValid t) : loadBytes (encodeText (
 
 /-! ## `insert` then `fetch` -/
 
-theorem insert_ok (fs : FS) (c : Cache) (crc : Nat) (toc : Toc) (d : Path) (hrw : c.rw = some d)
-    (hw : fs.canWrite d = true) :
-    c.insert fs crc toc =
-      (fs.write (storedName d crc) (encodeText (printToc toc)), { c with files := c.files ++ [storedName d crc] }) := by
-  unfold Cache.insert
-  simp only [hrw, insertName_eq, hw, if_true, storedName]
+theorem openW_clean (fs : FS) (d p : Path) (hw : fs.canWrite d = true) (hg : fs.ghostAt p = none) :
+    fs.openW d p = some fs := by
+  unfold FS.openW; simp [hw, hg]
 
-theorem insertCut_ok (fs : FS) (c : Cache) (crc : Nat) (toc : Toc) (k : Nat) (d : Path) (hrw : c.rw = some d)
-    (hw : fs.canWrite d = true) :
-    c.insertCut fs crc toc k = (fs.write (storedName d crc) ((encodeText (printToc toc)).take k), c) := by
+theorem insert_ok (fs fs' : FS) (c : Cache) (crc : Nat) (toc : Toc) (d : Path) (hrw : c.rw = some d)
+    (ho : fs.openW d (storedName d crc) = some fs') :
+    c.insert fs crc toc =
+      (fs'.write (storedName d crc) (encodeText (printToc toc)), { c with files := c.files ++ [storedName d crc] }) := by
+  unfold Cache.insert
+  unfold storedName at ho
+  simp only [hrw, insertName_eq, ho, storedName]
+
+theorem insert_blocked (fs : FS) (c : Cache) (crc : Nat) (toc : Toc) (d : Path) (hrw : c.rw = some d)
+    (ho : fs.openW d (storedName d crc) = none) : c.insert fs crc toc = (fs, c) := by
+  unfold Cache.insert
+  unfold storedName at ho
+  simp only [hrw, insertName_eq, ho]
+
+theorem insertCut_ok (fs fs' : FS) (c : Cache) (crc : Nat) (toc : Toc) (k : Nat) (d : Path) (hrw : c.rw = some d)
+    (ho : fs.openW d (storedName d crc) = some fs') :
+    c.insertCut fs crc toc k = (fs'.write (storedName d crc) ((encodeText (printToc toc)).take k), c) := by
   unfold Cache.insertCut
-  simp only [hrw, insertName_eq, hw, if_true, storedName]
+  unfold storedName at ho
+  simp only [hrw, insertName_eq, ho, storedName]
+
+theorem insertCut_blocked (fs : FS) (c : Cache) (crc : Nat) (toc : Toc) (k : Nat) (d : Path) (hrw : c.rw = some d)
+    (ho : fs.openW d (storedName d crc) = none) : c.insertCut fs crc toc k = (fs, c) := by
+  unfold Cache.insertCut
+  unfold storedName at ho
+  simp only [hrw, insertName_eq, ho]
 
 theorem storedName_endsWith_self (d : Path) (crc : Nat) : endsWith (storedName d crc) (hex08 crc ++ dotJson) = true := by
   unfold storedName
@@ -237,14 +255,14 @@ theorem storedName_endsWith_self (d : Path) (crc : Nat) : endsWith (storedName d
   exact endsWith_append_self _ _
 
 /-- after a successful `insert`, `fetch` of the same checksum decodes exactly the bytes just written -/
-theorem fetch_after_insert (fs : FS) (c : Cache) (crc : Nat) (toc : Toc) (d : Path) (hrw : c.rw = some d)
-    (hw : fs.canWrite d = true) :
+theorem fetch_after_insert (fs fs' : FS) (c : Cache) (crc : Nat) (toc : Toc) (d : Path) (hrw : c.rw = some d)
+    (ho : fs.openW d (storedName d crc) = some fs') :
     (c.insert fs crc toc).2.fetch (c.insert fs crc toc).1 crc =
       (match loadBytes (encodeText (printToc toc)) with
         | .ok v => .ok v
         | .error .exc => .ok .null
         | .error .unmodelled => .error .unmodelled) := by
-  rw [insert_ok fs c crc toc d hrw hw]
+  rw [insert_ok fs fs' c crc toc d hrw ho]
   exact fetch_of_hit _ _ crc (storedName d crc) _
     (findHit_append_match c.files _ _ (storedName_endsWith_self d crc)) (by rw [read_write]; simp)
 
@@ -489,6 +507,7 @@ theorem init_files (fs : FS) (ro : Option Path) (d : Path) (fs' : FS) (c : Cache
 theorem mem_glob_write (fs : FS) (d p : Path) (b : List UInt8) (hg : globMatch d p = true) :
     p ∈ glob (fs.write p b) d := by
   unfold glob FS.write
+  apply List.mem_append_left
   simp only [List.mem_map, List.mem_filter]
   have : p ∈ (writeFile fs.files p b).map (·.1) := (writeFile_paths fs.files p b p).2 (Or.inl rfl)
   obtain ⟨f, hf, hfp⟩ := List.mem_map.1 this
@@ -663,19 +682,19 @@ theorem loadBytes_truncated_all (t : Toc) (hv : TocValid t) (hwf : TocWF t) (k :
 
 /-- the write of `insert` is cut after `k` bytes (crash / write error), a new process builds a new `TocCache` over the
 same directories: the checksum is a miss -/
-theorem crash_restart_aux (fs : FS) (c : Cache) (crc : Nat) (toc : Toc) (k : Nat) (d : Path) (ro : Option Path)
-    (hrw : c.rw = some d) (hw : fs.canWrite d = true) (hcrc : crc < 4294967296)
+theorem crash_restart_aux (fs fs' : FS) (c : Cache) (crc : Nat) (toc : Toc) (k : Nat) (d : Path) (ro : Option Path)
+    (hrw : c.rw = some d) (ho : fs.openW d (storedName d crc) = some fs') (hcrc : crc < 4294967296)
     (hv : TocValid toc) (hwf : TocWF toc) (hk : k < (encodeText (printToc toc)).length)
     (fs2 : FS) (c2 : Cache) (hinit : Cache.init (c.insertCut fs crc toc k).1 ro (some d) = .ok (fs2, c2))
     (huniq : ∀ q ∈ glob (c.insertCut fs crc toc k).1 d, endsWith q (hex08 crc ++ dotJson) = true → q = storedName d crc) :
     c2.fetch fs2 crc = .ok .null := by
-  rw [insertCut_ok fs c crc toc k d hrw hw] at hinit huniq
+  rw [insertCut_ok fs fs' c crc toc k d hrw ho] at hinit huniq
   simp only at hinit huniq
   obtain ⟨f1, hf⟩ := init_files _ ro d fs2 c2 hinit
   have hread := (init_read _ ro (some d) fs2 c2 hinit (storedName d crc)).1
   rw [read_write] at hread
   simp only [if_true] at hread
-  have hmem := mem_glob_write fs d (storedName d crc) ((encodeText (printToc toc)).take k) (globMatch_storedName d crc hcrc)
+  have hmem := mem_glob_write fs' d (storedName d crc) ((encodeText (printToc toc)).take k) (globMatch_storedName d crc hcrc)
   have hhit : findHit c2.files (hex08 crc ++ dotJson) = some (storedName d crc) := by
     rw [hf]
     exact findHit_append_unique f1 _ _ _ hmem (storedName_endsWith_self d crc) huniq
